@@ -16,6 +16,9 @@ import MM.Model.C08
     has <ip> <ones> <bits> <origin>                                     -> true|false
     size                                                                -> size <keys> <routes>
     clear                                                               -> ok ; empty
+    race <n> | <op> | <op> …                                            -> race ; dump
+        every listed mutating op is executed by <n> goroutines, all released at once on the real
+        table; the model answers with the table of every serial order (`anyof` when they differ)
 
   <ip> hex bytes, <path> `-` or `a.b.c`; dump = groups sorted by label, `G<label> E<entry> E<entry> …`,
   entry = `ip/ones/bits,nextHop,origin,metric,seq,path,age`.
@@ -124,6 +127,100 @@ def step (st : St) (line : String) : St × String :=
   | ["clear"] => ({ st with s := ⟨now, []⟩ }, "ok ; empty")
   | _ => (st, "bad-op")
 
+/-! ### concurrent ops: every serial order -/
+
+/-- all distinct orders of a multiset of lines (`fuel` ≥ length) -/
+def orders : Nat → List String → List (List String)
+  | 0, _ => [[]]
+  | _, [] => [[]]
+  | fuel + 1, l => l.eraseDups.flatMap fun x => (orders fuel (l.erase x)).map (x :: ·)
+
+/-- `race <n> | op | op …` → the ops, each `n` times -/
+def raceOps (line : String) : List String :=
+  match line.splitOn " | " with
+  | hd :: ops =>
+    let n := match tokens hd with
+      | [_, k] => natTok k
+      | _ => 1
+    ops.flatMap fun o => List.replicate n o.trimAscii.toString
+  | [] => []
+
+def dumpPart (out : String) : String :=
+  match out.splitOn " ; " with
+  | [_, d] => d
+  | _ => "?"
+
+/-- run a `race` line through `step` in every serial order; distinct final tables -/
+def raceOutcomes {σ : Type} (step : σ → String → σ × String) (st : σ) (line : String) :
+    List (σ × String) :=
+  let ops := raceOps line
+  let all := (orders ops.length ops).map fun ord =>
+    ord.foldl (fun (acc : σ × String) l => let r := step acc.1 l; (r.1, dumpPart r.2)) (st, "?")
+  all.foldl (fun acc x => if acc.any (·.2 == x.2) then acc else acc ++ [x]) []
+
+def raceRun {σ : Type} (step : σ → String → σ × String) (st : σ) (line : String) : σ × String :=
+  match raceOutcomes step st line with
+  | [] => (st, "bad-op")
+  | [(s, d)] => (s, "race ; " ++ d)
+  | (s, d) :: rest => (s, "anyof " ++ " | ".intercalate (((s, d) :: rest).map ("race ; " ++ ·.2)))
+
+/-- `step` plus the `race` op -/
+def stepR (st : St) (line : String) : St × String :=
+  if line.trimAscii.toString.startsWith "race" then raceRun step st line else step st line
+
+/-- the alternatives of a model answer -/
+def alternatives (expected : String) : List String :=
+  if expected.startsWith "anyof " then ((expected.drop 6).toString.splitOn " | ").map (·.trimAscii.toString)
+  else [expected]
+
+/-! ### reading the implementation's dumps back -/
+
+/-- rebuild a table from the tokens of a dump: `G…` opens a slice, `E…` adds an entry to it;
+    ages are turned back into `born` relative to `now` -/
+def rebuild {K P : Type} (keyOf : P → K) (parseE : String → Option (Entry P)) (now : Nat)
+    (toks : List String) : KTable K P :=
+  let groups : List (List (Entry P)) := toks.foldl (fun acc tok =>
+    if tok.startsWith "G" then acc ++ [[]]
+    else match parseE tok, acc.reverse with
+      | some e, last :: before => before.reverse ++ [last ++ [{ e with born := now - e.born }]]
+      | _, _ => acc) []
+  groups.filterMap fun g => match g with
+    | [] => none
+    | e :: _ => some (keyOf e.pay, g)
+
+def dumpToks (out : String) : List String :=
+  match out.splitOn " ; " with
+  | [_, d] => tokens d
+  | _ => []
+
+def baseNow : Nat := 100000
+
+/-- the slices of a dump as lists of entry tokens -/
+def dumpGroups (toks : List String) : List (List String) :=
+  (toks.foldl (fun (acc : List (List String)) tok =>
+    if tok.startsWith "G" then [] :: acc
+    else match acc with
+      | g :: rest => (g ++ [tok]) :: rest
+      | [] => [[tok]]) []).reverse
+
+/-- the per-slice part of the invariant on a printed table: one entry per slot, metric-sorted -/
+def wfTag (byHop : Bool) (toks : List String) : Option String :=
+  let gs := dumpGroups toks
+  let slot (tok : String) : List String :=
+    let f := tok.splitOn ","
+    if byHop then (f.drop 1).take 2 else (f.drop 2).take 1
+  let metric (tok : String) : Nat := natTok (((tok.splitOn ",").drop 3).head?.getD "0")
+  if gs.any (fun g => (g.map slot).eraseDups.length != g.length) then some "race-duplicate-origin"
+  else if gs.any (fun g => !(g.zip (g.drop 1)).all (fun ab => decide (metric ab.1 ≤ metric ab.2))) then
+    some "race-unsorted"
+  else none
+
+/-- verdict on a `race` answer: well-formed and equal to the table of some serial order -/
+def raceVerdict (byHop : Bool) (expected impl : String) : String :=
+  match wfTag byHop (dumpToks impl) with
+  | some tag => "fail " ++ tag
+  | none => if (alternatives expected).contains impl.trimAscii.toString then "ok" else "fail race-not-serializable"
+
 /-! ### `spec`: the statement of C08 evaluated on the implementation's own answers -/
 
 /-- parse `E<ip>/<ones>/<bits>,<nh>,<or>,<metric>,<seq>,<path>,<age>` (the age lands in `born`) -/
@@ -184,31 +281,46 @@ def specLookAll (tab : List (Entry IPNet)) (ip : IPAddr) (answer : List String) 
       else "ok"
   | _ => "fail unparsable-answer"
 
-def specStep (tab : List (Entry IPNet)) (l : String) : List (Entry IPNet) × String :=
+structure SpecSt where
+  self : Nat := 0
+  tab : List (Entry IPNet) := []
+  toks : List String := []
+
+def specStep (st : SpecSt) (l : String) : SpecSt × String :=
+  let tab := st.tab
   match l.splitOn "\t" with
   | [op, out] =>
-    if out.startsWith "panic" || out.startsWith "crash" then (tab, "fail crashed")
+    if out.startsWith "panic" || out.startsWith "crash" then (st, "fail crashed")
     else match tokens op with
-      | ["reset", _] => ([], "ok")
+      | ["reset", self] => ({ self := natTok self }, "ok")
       | ["look", ip] =>
         match parseIP ip with
-        | some a => (tab, specLookup tab a (tokens out))
-        | none => (tab, "bad-op")
+        | some a => (st, specLookup tab a (tokens out))
+        | none => (st, "bad-op")
       | ["lookall", ip] =>
         match parseIP ip with
-        | some a => (tab, specLookAll tab a (tokens out))
-        | none => (tab, "bad-op")
-      | ["get", _, _, _] => (tab, "ok")
-      | ["has", _, _, _, _] => (tab, "ok")
-      | ["size"] => (tab, "ok")
+        | some a => (st, specLookAll tab a (tokens out))
+        | none => (st, "bad-op")
+      | ["get", _, _, _] => (st, "ok")
+      | ["has", _, _, _, _] => (st, "ok")
+      | ["size"] => (st, "ok")
+      | "race" :: _ =>
+        -- concurrent ops on the table the implementation printed last: the outcome must be a
+        -- well-formed table and the result of some serial order
+        let t : CTable := rebuild eff parseEntry baseNow st.toks
+        let (_, expected) := stepR ⟨st.self, ⟨baseNow, t⟩⟩ op
+        let v := raceVerdict false expected out
+        match parseDump out with
+        | some d => ({ st with tab := d, toks := dumpToks out }, v)
+        | none => (st, "fail unparsable-dump")
       | _ => match parseDump out with
-        | some d => (d, "ok")
-        | none => (tab, "fail unparsable-dump")
-  | _ => (tab, "bad-op")
+        | some d => ({ st with tab := d, toks := dumpToks out }, "ok")
+        | none => (st, "fail unparsable-dump")
+  | _ => (st, "bad-op")
 
 def main (args : List String) : IO Unit :=
   match args with
-  | ["spec"] => runLines ([] : List (Entry IPNet)) specStep
-  | _ => runLines St.init step
+  | ["spec"] => runLines ({} : SpecSt) specStep
+  | _ => runLines St.init stepR
 
 end MM.Engine.C08
